@@ -1036,12 +1036,14 @@ def gen_items(run, i, variant):
 
 
 def gen_cases(run):
-    n = run.pick(20 * 16, 500 * 16)
-    for i in range(n):
+    n = run.pick(36 * 16, 600 * 16)
+    # the strace cross-checks first (they take longest): one per shard for the first few shards
+    for s in range(run.pick(2, 8)):
+        yield {'i': 1000000 + 16 * s, 'strace': True, 'ncases': run.pick(2, 6)}
+    for s in range(run.pick(2, 8), 16):
+        yield {'i': s}
+    for i in range(16, n):
         yield {'i': i}
-    if run.tier == 'thorough':
-        for s in range(4):
-            yield {'i': 1000000 + s, 'strace': True}
 
 
 # ---------------------------------------------------------------------------------------------------------------------
@@ -1266,12 +1268,230 @@ def run_case(run, case):
 
 
 # ---------------------------------------------------------------------------------------------------------------------
-# strace cross-check (thorough tier): an independent observer of the same requests
+# strace cross-check: an independent observer (the kernel's view) of the same requests in a short-lived server process
 # ---------------------------------------------------------------------------------------------------------------------
 
+STRACE_MUT = {'mkdir', 'mkdirat', 'rename', 'renameat', 'renameat2', 'unlink', 'unlinkat', 'rmdir', 'symlink', 'symlinkat',
+              'link', 'linkat', 'chmod', 'fchmodat', 'chown', 'lchown', 'fchownat', 'truncate', 'utimensat', 'utime', 'utimes',
+              'mknod', 'mknodat', 'creat'}
+STRACE_OPEN = {'open', 'openat', 'openat2'}
+STRACE_IGNORED = {'stat', 'lstat', 'newfstatat', 'fstatat64', 'statx', 'access', 'faccessat', 'faccessat2', 'readlink',
+                  'readlinkat', 'getcwd', 'chdir', 'execve', 'statfs', 'getxattr', 'lgetxattr', 'listxattr', 'inotify_add_watch'}
+_CSTR = re.compile(r'"((?:[^"\\]|\\.)*)"')
+_FDARG = re.compile(r'^(AT_FDCWD|\d+)(?:<([^>]*)>)?')
+
+
+def _unescape(cs):
+    try:
+        return cs.encode('latin-1', 'backslashreplace').decode('unicode_escape').encode('latin-1', 'replace').decode('utf-8', 'surrogateescape')
+    except Exception:
+        return cs
+
+
+def parse_strace(path, begin_mark, end_mark):
+    """returns list of (syscall, [absolute paths], is_mutating) issued between the two marker stat calls"""
+    out = []
+    active = False
+    skipped = 0
+    with open(path, 'r', errors='replace') as f:
+        for line in f:
+            m = re.match(r'^(\d+)\s+(\w+)\((.*)$', line)
+            if not m:
+                continue
+            name, rest = m.group(2), m.group(3)
+            if begin_mark in rest:
+                active = True
+                continue
+            if end_mark in rest:
+                active = False
+                continue
+            if not active or name in STRACE_IGNORED:
+                continue
+            if name not in STRACE_MUT and name not in STRACE_OPEN:
+                skipped += 1
+                continue
+            # split the arguments: dirfd annotations and C strings
+            base = None
+            paths = []
+            pos = 0
+            args = rest
+            fm = _FDARG.match(args)
+            if fm:
+                base = fm.group(2)
+            strs = [(mm.start(), _unescape(mm.group(1))) for mm in _CSTR.finditer(args)]
+            if name in ('rename', 'link', 'symlink'):
+                take = strs[:2]
+            elif name in ('renameat', 'renameat2', 'linkat'):
+                take = strs[:2]
+            elif name == 'symlinkat':
+                take = strs[1:2]
+            else:
+                take = strs[:1]
+            if name == 'symlink':
+                take = strs[1:2]
+            for _, sp in take:
+                if not os.path.isabs(sp):
+                    if base is None:
+                        sp = None
+                    else:
+                        sp = os.path.join(base, sp)
+                if sp is not None:
+                    paths.append(sp)
+            mut = name in STRACE_MUT
+            if name in STRACE_OPEN:
+                mut = bool(re.search(r'O_(WRONLY|RDWR|CREAT|TRUNC|APPEND)', args))
+            out.append((name, paths, mut))
+    return out, skipped
+
+
+def strace_child_main(spec_path, out_path):
+    """executed under strace: build the world, run the items, dump what the audit hook saw"""
+    core.use_repo()
+    with open(spec_path) as f:
+        spec = json.load(f)
+    run = core.Run(PID, LEVEL, tier=spec['tier'], seed=spec['seed'])
+    setup_shard(run)
+    world = World(spec['top'], spec['variant'])
+    seen = []
+    orig_end = MON.end
+
+    def end_and_keep():
+        ev = orig_end()
+        seen.extend(ev)
+        return ev
+    MON.end = end_and_keep
+    try:
+        os.stat(spec['begin'])
+    except OSError:
+        pass
+    run_items(run, world, spec['items'], {'i': spec['i']})
+    try:
+        os.stat(spec['end'])
+    except OSError:
+        pass
+    MON.end = orig_end
+    d = run.dump()
+    d['audit'] = [[k, bool(mu), rp, rpf] for k, mu, raw, rp, rpf in seen if rp]
+    d['roots'] = world.jail.roots
+    d['jail_root'] = world.jail.root
+    d['mon_errors'] = MON.errors
+    with open(out_path, 'w') as f:
+        json.dump(d, f, default=str)
+
+
 def run_strace_case(run, case):
-    run.count('strace_cases_skipped_not_implemented')
+    if not shutil.which('strace'):
+        run.dc('strace_not_available')
+        return
+    i = case['i']
+    variant = case.get('variant') or gen_variant(i % 16)
+    variant = dict(variant, multi=False)
+    top = run.subdir('sjail')
+    shutil.rmtree(top)           # the child builds it
+    work = run.subdir('swork')
+    try:
+        items = case.get('items')
+        if not items:
+            items = []
+            for k in range(case.get('ncases', 4)):
+                items += gen_items(run, i + k, variant)
+        spec = {'top': top, 'variant': variant, 'items': items, 'tier': run.tier, 'seed': run.seed, 'i': i,
+                'begin': '/c09-strace-begin-%d' % i, 'end': '/c09-strace-end-%d' % i}
+        sp, op, tp = os.path.join(work, 'spec.json'), os.path.join(work, 'out.json'), os.path.join(work, 'trace.txt')
+        with open(sp, 'w') as f:
+            json.dump(spec, f)
+        env = dict(os.environ)
+        cmd = ['strace', '-f', '-y', '-s', '20000', '-e', 'trace=%file', '-o', tp,
+               sys.executable, '-m', 'checks.c09', '--strace-child', sp, op]
+        try:
+            pr = subprocess.run(cmd, cwd=core.VERIF, env=env, stdout=subprocess.PIPE, stderr=subprocess.STDOUT, timeout=400)
+        except subprocess.TimeoutExpired:
+            raise RuntimeError('strace child timed out')
+        if not os.path.exists(op):
+            raise RuntimeError('strace child produced no result rc=%s: %s' % (pr.returncode, pr.stdout[-1500:].decode('utf-8', 'replace')))
+        with open(op) as f:
+            d = json.load(f)
+        audit = d.pop('audit')
+        roots = d.pop('roots')
+        jroot = d.pop('jail_root')
+        if d.pop('mon_errors'):
+            raise RuntimeError('audit hook raised internal errors in the strace child')
+        run.merge(d)                        # the child's own judgements (same oracle) count as well
+        calls, skipped = parse_strace(tp, spec['begin'], spec['end'])
+        run.count('strace_syscalls_in_window', len(calls))
+        jtop = os.path.realpath(top)
+
+        def interesting(p):
+            return p.startswith(jtop + os.sep) or bool(MARK_RE.search(p))
+
+        def inroots(p):
+            return any(p == r or p.startswith(r + os.sep) for r in roots)
+        a_all, a_mut, a_sqlite = set(), set(), set()
+        for kind, mut, rp, rpf in audit:
+            for c in (rp, rpf):
+                if c:
+                    a_all.add(c)
+                    if mut:
+                        a_mut.add(c)
+                    if kind == 'sqlite_connect':
+                        a_sqlite.add(c)
+        s_all, s_mut = set(), set()
+        for name, paths, mut in calls:
+            for p in paths:
+                rp, rpf = resolve(p, True)
+                for c in set((rp, rpf)):
+                    if c and interesting(c):
+                        s_all.add(c)
+                        if mut:
+                            s_mut.add(c)
+        RES.clear()
+
+        def sqlite_side(p):
+            return any(p == q or (p.startswith(q) and p[len(q):] in ('-journal', '-wal', '-shm')) for q in a_sqlite)
+        # temp names of write_atomic / lock files are random but the audit hook must have seen the very same names
+        miss_mut = sorted(p for p in s_mut if p not in a_mut and not sqlite_side(p))
+        miss_any = sorted(p for p in s_all if p not in a_all and not sqlite_side(p))
+        run.hit('strace_paths_compared', len(s_all))
+        run.hit('strace_mutating_paths_compared', len(s_mut))
+        run.count('strace_paths_outside_roots', len([p for p in s_all if not inroots(p)]))
+        run.count('audit_paths_without_syscall', len([p for p in a_all if interesting(p) and p not in s_all]))
+        run.judge(('strace_crosscheck', variant['fwd'], variant['origin']), nontrivial=True)
+        if miss_mut or miss_any:
+            outside = [p for p in (miss_mut + miss_any) if not inroots(p)]
+            if outside:
+                run.violation({'service': 'any', 'vector': 'strace_crosscheck', 'event': 'syscall_unseen_by_audit_hook_outside_roots'},
+                              {'i': i, 'strace': True, 'variant': variant, 'items': items},
+                              'strace saw file system calls on jail/marker paths outside the roots that raised no audit event: %r' % outside[:10])
+            else:
+                raise RuntimeError('audit hook is blind to system calls strace saw (inside the roots): mutating %r other %r' % (
+                    miss_mut[:8], miss_any[:8]))
+        run.hit('strace_cases')
+    finally:
+        shutil.rmtree(top, ignore_errors=True)
+        shutil.rmtree(work, ignore_errors=True)
+
+
+def evidence_extra(total):
+    """compact, complete list of violation mechanisms (core prints only the 40 most frequent full mechanisms)"""
+    agg = {}
+    for key, n in total.viol_mechs.items():
+        m = json.loads(key)
+        k = (m.get('service'), m.get('vector'), m.get('event'))
+        a = agg.setdefault(k, {'n': 0, 'backends': set()})
+        a['n'] += n
+        b = m.get('backend')
+        if b:
+            a['backends'].add('%s%s%s' % (b, '/' + m['layout'] if m.get('layout') else '', '+dims' if m.get('dims_configured') else ''))
+    lines = []
+    for k in sorted(agg, key=lambda k: tuple(str(x) for x in k)):
+        a = agg[k]
+        lines.append({'service': k[0], 'vector': k[1], 'event': k[2], 'hits': a['n'], 'backends': sorted(a['backends'])})
+        print('violation-summary x%d: service=%s vector=%s event=%s backends=%s' % (a['n'], k[0], k[1], k[2], ','.join(sorted(a['backends']))))
+    return {'violation_summary': lines}
 
 
 if __name__ == '__main__':
-    core.main(sys.modules[__name__])
+    if len(sys.argv) >= 4 and sys.argv[1] == '--strace-child':
+        strace_child_main(sys.argv[2], sys.argv[3])
+    else:
+        core.main(sys.modules[__name__])
